@@ -110,7 +110,7 @@ def stack_model(dl, dr, fl, thr, dmin, dmax, mq="even", ms="even", offset=0):
     dl = np.asarray(dl, dtype=np.float64)
     dr = np.asarray(dr, dtype=np.float64)
     fl = np.asarray(fl).astype(np.int64)
-    nrow, n = dl.shape
+    n = dl.shape[1]
     cols = np.arange(n)[None, :]
     valid = (fl & INVALID) == 0
     fin = np.isfinite(dl)
